@@ -141,6 +141,13 @@ def gen_case(rng):
         th = rng.choice([0.0, 90.0, 180.0, 270.0, 45.0]) if rng.random() < 0.12 else rng.uniform(0, 360)
         e2 = e1 + length * math.sin(math.radians(th))
         n2 = n1 + length * math.cos(math.radians(th))
+        if edge == '' and rng.random() < 0.06:
+            # a grid-north / grid-south line whose two eastings agree only to floating-point noise (the same easting reached by
+            # two different sums): neither bit-identical nor measurably different
+            e2 = e1 + rng.choice([-1, 1]) * 10 ** rng.uniform(-11.5, -8)
+            if e2 == e1:
+                e2 = math.nextafter(e1, math.inf)
+            n2 = n1 + rng.choice([-1, 1]) * length
         if edge == 'equator':
             # put point 2 a few metres from the equator, keep direction and length of the line
             n2 = (1e7 - 10 ** rng.uniform(-3, 1.69)) if hemi == 'south' else 10 ** rng.uniform(-3, 1.69)
